@@ -22,6 +22,7 @@ type Variant06 struct {
 	Requester string  `json:"requester"`           // "real": cedar's client code with a doctored cache entry; "hand": frames built with refcodec
 	OneOffPos int     `json:"oneOffPos"`           // which character of the id differs (modulo its length)
 	CutFrac   float64 `json:"cutFrac"`             // where inside a frame a "mid" cut falls (0..1)
+	AnonNever bool    `json:"anonNever,omitempty"` // unauthenticated sessions by Authentication NEVER / method NONE instead of OPTIONAL with a common method
 	Placement string  `json:"placement,omitempty"` // see Server.Placement: "" (own cache), "fallback", "global"
 }
 
@@ -47,37 +48,67 @@ type rec06 struct {
 
 // World06 is the real counterpart of the model state of one C06 behaviour.
 type World06 struct {
-	srv  *Server
-	sess map[int]*sess06
-	recs []rec06
-	St   Stats06
+	srv        *Server
+	sess       map[int]*sess06
+	recs       []rec06
+	St         Stats06
+	dur, lease int
 }
 
 type Stats06 struct {
-	RealHandshakes, Resumes, Replays, FramesOpenedByRef, LeaseRenewed, LeaseNotRenewed, RealDeclined int64
+	RealHandshakes, Resumes, Replays, FramesOpenedByRef, LeaseRenewed, LeaseNotRenewed, RealDeclined, ExpiryReadBack int64
 }
 
 func NewWorld06() *World06 {
 	return &World06{srv: NewServer(serverAddr06), sess: map[int]*sess06{}}
 }
 
-// remap binds the virtual clock: every entry present in the real server cache
-// gets a real expiry in the past (model: present but dead) or far in the
-// future (model: alive). Entries the model does not have are left untouched.
-func (w *World06) remap(e *Entry) {
+// tickUnit is the real time one tick of the model's clock stands for; the server
+// announces SessionDuration = Duration ticks and SessionLease = Lease ticks.
+const tickUnit = 1800 * time.Second
+
+// syncClock binds the virtual clock. Every entry the real server cache holds is
+// kept at the real expiry  now + (exp - vnow) ticks + half a tick  (so "expired"
+// on the real entry coincides with  vnow > exp  in the model, without sleeping).
+// After every step except Tick it first READS BACK what the real code left in
+// SessionEntry.Expiration() (set by storeSession, moved by RenewLease), converts
+// it to virtual time and compares it with the expiry the model's lease mechanism
+// defines; then it re-normalises the entry (which also realises Tick).
+func (w *World06) syncClock(i int, e *Entry, readBack bool) *Diff {
 	cache := w.srv.Sessions()
 	for _, ent := range cache.Snapshot() {
 		for n, s := range w.sess {
 			if s.ID != ent.ID() || n > len(e.Present) || !e.Present[n-1] {
 				continue
 			}
-			exp := time.Now().Add(10 * time.Hour)
-			if !e.Alive[n-1] {
-				exp = time.Now().Add(-time.Hour)
+			if len(e.Exp) < n { // behaviour recorded without expiries: alive / dead only
+				exp := time.Now().Add(10 * time.Hour)
+				if !e.Alive[n-1] {
+					exp = time.Now().Add(-time.Hour)
+				}
+				cache.Store(security.NewSessionEntry(ent.ID(), ent.Addr(), ent.KeyInfo(), ent.Policy(), exp, ent.Lease(), ent.Tag()))
+				continue
 			}
+			model := e.Exp[n-1]
+			if readBack {
+				x := float64(time.Until(ent.Expiration())) / float64(tickUnit)
+				real := e.Now + int(math.Floor(x+0.25))
+				w.St.ExpiryReadBack++
+				if real > model {
+					d := viol(i, &e.Step, "DeadStaysDead", "after %s at virtual time %d: the lease mechanism puts the expiry of session %d at %d (duration %d, lease %d ticks), the real entry's Expiration() reads %d: the session outlives its lease and stays resumable when it should be SID_NOT_FOUND",
+						e.Step.Act, e.Now, n, model, w.dur, w.lease, real)
+					d.Sig["obs"] = "expiry"
+					return d
+				}
+				if real < model {
+					return broken(i, "after %s at virtual time %d: session %d should expire at %d, the real entry reads %d", e.Step.Act, e.Now, n, model, real)
+				}
+			}
+			exp := time.Now().Add(time.Duration(model-e.Now)*tickUnit + tickUnit/2)
 			cache.Store(security.NewSessionEntry(ent.ID(), ent.Addr(), ent.KeyInfo(), ent.Policy(), exp, ent.Lease(), ent.Tag()))
 		}
 	}
+	return nil
 }
 
 func (w *World06) present(id string) bool {
@@ -159,6 +190,12 @@ func Run06(sc *Scenario, v Variant06) (*Diff, *Stats06) {
 func run06(sc *Scenario, v Variant06) (*Diff, *Stats06) {
 	w := NewWorld06()
 	w.srv.Placement = v.Placement
+	w.srv.AnonNever = v.AnonNever
+	w.dur, w.lease = sc.Dur, sc.Lease
+	if sc.Dur > 0 && sc.Lease > 0 {
+		w.srv.DurSecs = sc.Dur * int(tickUnit/time.Second)
+		w.srv.LeaseSecs = sc.Lease * int(tickUnit/time.Second)
+	}
 	// sessions left in the process-global cache are removed again at the end (ids are
 	// unique per session, so parallel scenarios never see each other's entries)
 	defer func() {
@@ -173,8 +210,10 @@ func run06(sc *Scenario, v Variant06) (*Diff, *Stats06) {
 		if d := w.step(i, e, v); d != nil {
 			return d, &w.St
 		}
-		// post-state: bind the clock, then compare what the real cache answers
-		w.remap(e)
+		// post-state: read the expiries back, bind the clock, then compare what the real cache answers
+		if d := w.syncClock(i, e, e.Step.Act != "Tick"); d != nil {
+			return d, &w.St
+		}
 		for n := 1; n <= len(e.Alive); n++ {
 			s := w.sess[n]
 			if s == nil {
@@ -199,7 +238,7 @@ func (w *World06) step(i int, e *Entry, v Variant06) *Diff {
 	case "Establish":
 		return w.establish(i, st)
 	case "Tick":
-		return nil // the clock is bound by remap after the step
+		return nil // the clock is bound by syncClock after the step
 	case "Renew":
 		s := w.sess[st.Sid]
 		ent, ok := cache.Lookup(s.ID)
@@ -234,7 +273,7 @@ func (w *World06) establish(i int, st *Step) *Diff {
 	w.srv.Keyed, w.srv.Authed = st.Keyed, st.Authed
 	var cr ClientResult
 	cc := security.NewSessionCache() // every session is established by a client that has nothing cached
-	cfg := ClientConfig(cc, "", CmdInt["c1"], st.Authed)
+	cfg := ClientConfigAnon(cc, "", CmdInt["c1"], st.Authed, w.srv.AnonNever)
 	log := Exchange(w.srv, ClientAddrSame, AppServer, RealClient(cfg, w.srv.Addr, true, &cr))
 	w.St.RealHandshakes++
 	if log.Hang {
@@ -331,7 +370,7 @@ func (w *World06) realRequester(s *sess06, st *Step, v Variant06, from string) (
 	ac := security.NewSessionCache()
 	ac.Store(security.NewSessionEntry(id, w.srv.Addr, ki, orig.Policy(), time.Now().Add(10*time.Hour), orig.Lease(), ""))
 	ac.MapCommand("", w.srv.Addr, strconv.Itoa(CmdInt["c1"]), id)
-	cfg := ClientConfig(ac, "", CmdInt["c1"], s.SrvAuthed)
+	cfg := ClientConfigAnon(ac, "", CmdInt["c1"], s.SrvAuthed, w.srv.AnonNever)
 	cr := &ClientResult{}
 	log := Exchange(w.srv, from, AppServer, RealClient(cfg, w.srv.Addr, true, cr))
 	o := &obs06{log: log, cli: cr, reply: ReplyCode(log.S2C)}
@@ -666,7 +705,7 @@ func (w *World06) replay(i int, st *Step, v Variant06) *Diff {
 	bc.Feed(data)
 	stC := stream.NewStream(bc)
 	stC.SetPeerAddr(w.srv.Addr)
-	auth := security.NewAuthenticator(ClientConfig(ac, "", CmdInt["c1"], s.SrvAuthed), stC)
+	auth := security.NewAuthenticator(ClientConfigAnon(ac, "", CmdInt["c1"], s.SrvAuthed, w.srv.AnonNever), stC)
 	_, err := auth.ClientHandshake(ctx)
 	if err != nil {
 		return nil
